@@ -188,7 +188,7 @@ pub fn run_c04(a: &Args) {
         st.exhaustive.push(format!("all 65536 (size,type) header pairs, zero and random bodies ({} mode)", mode_tag(compressed)));
         // 2. valid frames of every kind: every truncation class, extension, and single-byte substitutions
         let reps = if a.thorough() { 40 } else { 3 };
-        for k in KINDS.iter() { for _ in 0..reps {
+        for k in KINDS.iter() { for rep in 0..reps {
             if let Some((f, _)) = gen_frame(&mut rng, k, compressed, 0, None) {
                 one(f[..f.len() - 1].to_vec(), &mut st, &mut out, true);
                 one(f[..3.min(f.len())].to_vec(), &mut st, &mut out, true);
@@ -201,6 +201,29 @@ pub fn run_c04(a: &Args) {
                     off += w;
                 }
                 for _ in 0..8 { let mut g = f.clone(); let i = rng.below(g.len() as u64) as usize; g[i] ^= 1 << rng.below(8); one(g, &mut st, &mut out, true); }
+                // hand-coded multi-byte fields: token strings over a class alphabet (ASCII digits, letters, '.', NUL, multi-byte UTF-8 letters /
+                // numerics, a lone continuation byte, 0xFF), NUL-padded to the field width: every string of up to L tokens, then random ones
+                let mut off = 2;
+                for (_, at) in k.fixed {
+                    let w = width(at);
+                    if let Atom::Custom(c, _) = at { if w >= 3 && off + w <= f.len() && (rep == 0 || a.thorough()) {
+                        let toks: &[&[u8]] = match c {
+                            Custom::GameVersion => &[b"0", b"7", b".", b"A", b"k", "\u{e9}".as_bytes(), "\u{b2}".as_bytes(), "\u{663}".as_bytes(), "\u{4e2d}".as_bytes(), b"\xFF", b"-", b"\0", "\u{df}".as_bytes(), b"\xA9"],
+                            _ => &[b"X", b"r", b"9", b"[", b"`", b"\0", b"\xFF", b" ", b"@", b"{"],
+                        };
+                        let maxl = if matches!(c, Custom::GameVersion) { if a.thorough() { 4 } else { 3 } } else { w.min(4) };
+                        let mut idx: Vec<usize> = vec![];
+                        loop {
+                            let mut fld: Vec<u8> = idx.iter().flat_map(|i| toks[*i].iter().copied()).collect(); fld.resize(w, 0);
+                            let mut g = f.clone(); g[off..off + w].copy_from_slice(&fld); one(g, &mut st, &mut out, true);
+                            let mut kk = idx.len();
+                            loop { if kk == 0 { idx = vec![0; idx.len() + 1]; break; } kk -= 1; if idx[kk] + 1 < toks.len() { idx[kk] += 1; for j in kk + 1..idx.len() { idx[j] = 0; } break; } }
+                            if idx.len() > maxl { break; }
+                        }
+                        for _ in 0..200 { let n = 1 + rng.below(8) as usize; let mut fld: Vec<u8> = (0..n).flat_map(|_| toks[rng.below(toks.len() as u64) as usize].iter().copied()).collect(); fld.resize(w, 0); let mut g = f.clone(); g[off..off + w].copy_from_slice(&fld); one(g, &mut st, &mut out, true); }
+                    } }
+                    off += w;
+                }
                 // size byte announcing less / more than the real content
                 if f.len() > 8 { let mut g = f.clone(); g[0] = if compressed { 1 } else { 4 }; one(g, &mut st, &mut out, true); let mut h = f.clone(); h[0] = h[0].wrapping_sub(1); one(h, &mut st, &mut out, true); }
             }
